@@ -413,6 +413,123 @@ fn fault_scenario(_info: &RunInfo, ch: &mut Chooser, ctx: &mut Ctx) {
     dispatch(cfg, FaultJob { ch, ctx, cfg });
 }
 
+// SCHEDULED-CONSTRUCTION ARM (concurrent build under SimRayon, inside an isolated worker)
+// ------------------------------------------------------------------------------------------------
+// Trees above 1024 leaves are built by crypto::merkle::concurrent when the `concurrent` feature is
+// on; the openings of such a tree must verify against its root exactly like those of a serially
+// built one. The simulator chooses the pool size and the task schedule.
+
+struct SchedJob<'a> {
+    ch: &'a mut Chooser,
+    ctx: &'a mut Ctx,
+    cfg: Cfg,
+}
+
+impl<'a> Job for SchedJob<'a> {
+    type Out = ();
+    fn run<B: SimField, H: ElementHasher<BaseField = B> + Send + Sync + 'static>(self) {
+        scheduled::<H>(self.ch, self.ctx, self.cfg)
+    }
+}
+
+/// the root by the definition: pairwise merges, level by level
+fn naive_root<H: Hasher>(leaves: &[H::Digest]) -> H::Digest {
+    let mut level: Vec<H::Digest> = leaves.to_vec();
+    while level.len() > 1 {
+        level = level.chunks(2).map(|p| H::merge(&[p[0], p[1]])).collect();
+    }
+    level[0]
+}
+
+#[cfg(not(feature = "concurrent"))]
+fn scheduled<H: Hasher>(_ch: &mut Chooser, ctx: &mut Ctx, _cfg: Cfg) {
+    ctx.skipped = Some("needs_the_concurrent_build");
+}
+
+#[cfg(feature = "concurrent")]
+fn scheduled<H: Hasher>(ch: &mut Chooser, ctx: &mut Ctx, cfg: Cfg) {
+    let log_n = 10 + ch.weighted("sched.logn", &[1, 4, 3, 1]) as u32; // 1024 (serial path) .. 8192
+    let n = 1usize << log_n;
+    let salt = ch.u64("sched.salt");
+    let leaves = leaves_for::<H>(n, salt);
+    let pool = if ch.chance("pool.any?", 1, 3) { 1 + ch.index("pool.size", 64) } else { crate::c14::POOLS[ch.index("pool.pick", crate::c14::POOLS.len())] };
+    let k = ch.biased("sched.k", 1, 64, &[1, 2, 3, 16]) as usize;
+    let style = ch.index("sched.posstyle", 3);
+    let mut positions: Vec<usize> = vec![];
+    while positions.len() < k {
+        let p = match style {
+            0 => ch.index("sched.pos", n),
+            1 => (ch.index("sched.base", n / 64) * 64 + ch.index("sched.off", 4)) % n, // clustered
+            _ => n - 1 - ch.index("sched.tail", 64.min(n)),                             // right edge
+        };
+        if !positions.contains(&p) {
+            positions.push(p);
+        }
+    }
+    ctx.event("sched", n as u64, pool as u64);
+    ctx.nontrivial = true;
+    if !pool.is_power_of_two() {
+        ctx.fault("pool_size_not_power_of_two");
+    }
+    if pool > 16 {
+        ctx.fault("pool_larger_than_16");
+    }
+    let built = {
+        let mut picker = |site: &'static str, m: u64| ch.pick(site, m);
+        rayon::sim::with_schedule(pool, &mut picker, || guard(|| MerkleTree::<H>::new(leaves.clone())))
+    };
+    let st = rayon::sim::stats();
+    ctx.probe_n("tasks", st.tasks);
+    ctx.probe_n("reordered_tasks", st.reorders);
+    if st.reorders > 0 {
+        ctx.fault("schedule_reordered_tasks");
+    }
+    ctx.mix(salt ^ st.tasks.rotate_left(20) ^ st.reorders.rotate_left(40) ^ simcore::rng::fnv1a(format!("{:?}", positions).as_bytes()));
+    let ctxt = |what: &str| format!("{what}: tree of {n} leaves built on a pool of {pool}, hasher {:?}, positions {:?}", cfg.1, &positions[..positions.len().min(8)]);
+    let tree = match built {
+        Ok(Ok(t)) => t,
+        Ok(Err(e)) => {
+            ctx.violation("C10/scheduled/tree-construction-fails", ctxt(&format!("{e}")));
+            return;
+        },
+        Err(p) => {
+            ctx.violation(format!("C10/scheduled/tree-construction-panic {}", p.signature()), ctxt(&format!("{}:{}: {}", p.file, p.line, p.msg)));
+            return;
+        },
+    };
+    let root = *tree.root();
+    if root != naive_root::<H>(&leaves) {
+        ctx.violation("C10/scheduled/root-is-not-the-root-of-the-leaves", ctxt("the root of the concurrently built tree differs from the level-by-level merge of its leaves"));
+        return;
+    }
+    let r = guard(|| -> Result<(), String> {
+        let bp = tree.prove_batch(&positions).map_err(|e| format!("prove_batch: {e}"))?;
+        MerkleTree::<H>::verify_batch(&root, &positions, &bp).map_err(|e| format!("verify_batch rejects the tree's own opening: {e}"))?;
+        for p in positions.iter().take(4) {
+            let single = tree.prove(*p).map_err(|e| format!("prove: {e}"))?;
+            MerkleTree::<H>::verify(root, *p, &single).map_err(|e| format!("verify rejects the single opening of {p}: {e}"))?;
+            if single[0] != leaves[*p] {
+                return Err("single opening does not start with the committed leaf".into());
+            }
+        }
+        Ok(())
+    });
+    match r {
+        Ok(Ok(())) => {},
+        Ok(Err(e)) => {
+            let c: String = e.split(':').next().unwrap_or("").chars().map(|c| if c.is_ascii_digit() { '#' } else { c }).collect::<String>().replace("##", "#");
+            ctx.violation(format!("C10/scheduled/honest-opening {c}"), ctxt(&e));
+        },
+        Err(p) => ctx.violation(format!("C10/scheduled/opening-panic {}", p.signature()), ctxt(&format!("{}:{}: {}", p.file, p.line, p.msg))),
+    }
+}
+
+fn sched_scenario(_info: &RunInfo, ch: &mut Chooser, ctx: &mut Ctx) {
+    let hashers: [usize; 6] = [0, 10, 3, 6, 9, 11];
+    let cfg = CONFIGS[hashers[ch.weighted("hasher", &[5, 1, 2, 1, 1, 1])]];
+    dispatch(cfg, SchedJob { ch, ctx, cfg });
+}
+
 pub fn spec() -> CheckSpec {
     let arms: Vec<Box<dyn Arm>> = vec![
         Box::new(SubsetArm),
@@ -424,15 +541,22 @@ pub fn spec() -> CheckSpec {
             exe_env: Some("WFSIM_OVF"),
             alias: Some("faulted-openings-overflow-checked"),
         }),
+        Box::new(IsoArm {
+            check_id: "C10",
+            inner: Box::new(FnArm { name: "scheduled-construction", quick: 1_500, thorough: 40_000, f: sched_scenario }),
+            timeout_s: 60,
+            exe_env: Some("WFSIM_CONC"),
+            alias: None,
+        }),
     ];
     CheckSpec {
         id: "C10",
         level: "fault_enumeration",
-        build: "serial (+ overflow-checking build for one arm)",
-        rule: "fault-free arm, enumerated completely: for trees of 2, 4, 8 and 16 leaves EVERY non-empty position set (3 + 15 + 255 + 65535 per hasher; quick: 2 hashers, thorough: all 6), half of the runs with a taped permutation of the position list: prove_batch / verify_batch / get_root, claimed leaves in list order, into_paths equal to the single openings (each verified), from_paths back to the batch opening. Fault arm, sampled: trees of depth 1..10, 1..255 positions with adjacency patterns (siblings, cousins, all-left, right edge), sorted or not, then one fault on the opening or the position list in transit (15 kinds, incl. the coordinated 'one more position with an arbitrary claimed leaf'); the same arm also runs in the overflow-checking build inside an isolated worker. Oracle: Ok => every claimed leaf at a queried in-range position equals the committed leaf and the shape is the honest one; never a panic. Non-trivial = a fault fired or positions permuted (all runs of the fault arm); distinct = distinct event-log digests.".into(),
+        build: "serial (+ overflow-checking build for one arm, concurrent build under SimRayon for one arm)",
+        rule: "fault-free arm, enumerated completely: for trees of 2, 4, 8 and 16 leaves EVERY non-empty position set (3 + 15 + 255 + 65535 per hasher; quick: 2 hashers, thorough: all 6), half of the runs with a taped permutation of the position list: prove_batch / verify_batch / get_root, claimed leaves in list order, into_paths equal to the single openings (each verified), from_paths back to the batch opening. Fault arm, sampled: trees of depth 1..10, 1..255 positions with adjacency patterns (siblings, cousins, all-left, right edge), sorted or not, then one fault on the opening or the position list in transit (15 kinds, incl. the coordinated 'one more position with an arbitrary claimed leaf'); the same arm also runs in the overflow-checking build inside an isolated worker. Oracle: Ok => every claimed leaf at a queried in-range position equals the committed leaf and the shape is the honest one; never a panic. Scheduled-construction arm (concurrent build, isolated worker): trees of 1024..8192 leaves built by MerkleTree::new under a simulator-chosen pool size (1..64) and task schedule; the root must equal the level-by-level merge of the leaves and the tree's single and batch openings must verify against it. Non-trivial = a fault fired or positions permuted (all runs of the fault arm); distinct = distinct event-log digests.".into(),
         interleaving_measure: "distinct (tree, position list, fault) histories".into(),
         real: vec!["crypto::MerkleTree (new, prove, prove_batch, verify, verify_batch)", "crypto::BatchMerkleProof (get_root, into_paths, from_paths)", "all six hashers"],
-        stub: vec!["nothing; the oracle is a naive comparison with the committed leaves"],
+        stub: vec!["nothing in the serial arms; rayon (replaced by SimRayon) in the scheduled-construction arm"],
         assumptions: vec!["hash collisions are treated as impossible"],
         arms,
     }
